@@ -13,7 +13,6 @@ from common import Outcome, finish, lean_batch, proof_status, quiet, rng, scratc
 
 PROP = "C19"
 ILL_FORMED = "uml-protocolstack-ill-formed-operations"
-UNPACKAGED = "uml-element-outside-package"
 TRUSTED = [
     "Lean 4.33 kernel; axioms propext, Classical.choice, Quot.sound only",
     "Model/Uml is hand-written after umlgen.py (kind dispatch, template selection and file naming, namespace folders, project files) and the nested-namespace formatters of LanguageCPP / LanguageCsharp; "
@@ -97,22 +96,22 @@ def run(tier):
     thorough = tier == "thorough"
     proof = proof_status(PROP, thorough)
     oc = Outcome(PROP)
-    oc.rule = ("shipped class diagrams (TestClassDiagram, ProtocolStack) and projects derived from them by 0-4 SQL-level edits (rename class, rename package, remove class from the diagram, move a class out of its package, re-type an attribute to a leaf type of - mostly - another package), C++ and C# back ends, "
+    oc.rule = ("shipped class diagrams (TestClassDiagram, ProtocolStack) and projects derived from them by 0-4 SQL-level edits (rename class, rename package, remove class from the diagram, move a class out of its package, re-type an attribute to a leaf type of - mostly - another package, re-type an operation's return to a pointer / reference / value of another type, package names that end or begin alike), C++ and C# back ends, "
                "namespace folders on/off, with/without export macro: reported file list == Uml.fileList of the real parsed element list; wrapper lines == Uml.nsBegin/nsEnd; C++: declaration/definition pairing per concrete class, "
                "overrides of realised pure-virtual interfaces, g++ -fsyntax-only per file; non-trivial = every case")
     oc.assumptions = TRUSTED
     r = rng(PROP)
     runner = genlib.Runner()
     reqs, pend = [], []
-    n = 90 if thorough else 24
+    n = 100 if thorough else 28
     with scratch() as base:
         for i in range(n):
             diagram = r.choice(["TestClassDiagram", "TestClassDiagram", "ProtocolStack"])
             proj = os.path.join(base, "p%d.vpp" % i)
-            single = 2 <= i < 12      # a few derived models with exactly one re-typed attribute (the compile oracle always applies)
+            single = 2 <= i < 16      # a few derived models with exactly one re-typed attribute (the compile oracle always applies)
             if single:
                 diagram = "TestClassDiagram"
-            ops = umlmut.mutate(r, genlib.BLOB, proj, diagram, 0 if i < 2 else (1 if single else r.randint(1, 4)), only=("retype-reference-to-enum" if i < 4 else "retype-attribute") if single else None)
+            ops = umlmut.mutate(r, genlib.BLOB, proj, diagram, 0 if i < 2 else (1 if single else r.randint(1, 4)), only=("retype-reference-to-enum" if i < 4 else ("retype-return" if i < 7 else ("rename-package-after-class" if i < 9 else "retype-attribute"))) if single else None)
             backend = "uml" if single else r.choice(["uml", "uml", "umlcs"])
             folders = (i % 4 != 1) if single else r.random() < 0.5
             model = dict(kind="uml", backend=backend, project=proj, diagram=diagram, ns_folders=folders, dclspc=r.choice(["", "MY_API"]))
@@ -142,15 +141,14 @@ def run(tier):
                 # recorded finding: an element outside any package has NAMESPACE == '' and the generator strips
                 # NAMESPACE + '::' from every referenced type (all '::' vanish): includes and base-class names break
                 unpackaged = any(e[1] == "" for e in elems)
-                bad = cpp_checks(oc, out, cd, info, compile_ok=(diagram != "ProtocolStack" and not removed and not unpackaged))
-                if unpackaged and bad and not removed:
-                    import findings
-                    findings.record(oc, PROP, UNPACKAGED, True, dict(files=[b[0] for b in bad][:3], edits=ops))
+                if unpackaged:
+                    oc.stat("models_with_an_element_outside_any_package")
+                bad = cpp_checks(oc, out, cd, info, compile_ok=(diagram != "ProtocolStack" and not removed))
                 if diagram == "ProtocolStack":
                     import findings
                     # the recorded witness: the interface's operation named like the class, and its static abstract operation
                     only_known = bool(bad) and all(("constructors cannot be declared" in str(b[1])) or ("initializer specified for static member function" in str(b[1])) for b in bad)
-                    if removed or unpackaged:
+                    if removed:
                         pass
                     elif bad and only_known:
                         findings.record(oc, PROP, ILL_FORMED, True, dict(files=[b[0] for b in bad][:3]))
